@@ -413,16 +413,18 @@ public:
     {
         const ConstructableType     defaultValue(*m_memoryManager);
 
-        if (newSize > size())
+        const size_type     theOldSize = size();
+
+        if (newSize > theOldSize)
         {
-            for (size_type i = 0; i < newSize - size(); ++i)
+            for (size_type i = 0; i < newSize - theOldSize; ++i)
             {
                 push_back(defaultValue.value);
             }
         }
         else
         {
-            for (size_type i = 0; i < size() - newSize; ++i)
+            for (size_type i = 0; i < theOldSize - newSize; ++i)
             {
                 pop_back();
             }
